@@ -239,6 +239,38 @@ pub fn directed_inputs() -> Vec<(String, Vec<u8>)> {
         out.push((format!("OpenCL import + OpExtInst {} inside a block", num), mk(&[(5 << 16) | 11, 3, 0x6e65704f, 0x732e4c43, 0x00006474, (5 << 16) | 54, 2, 7, 0, 8, (2 << 16) | 248, 9, (6 << 16) | 12, 1, 10, 3, num, 11, (1 << 16) | 253, (1 << 16) | 56])));
     }
     out.push(("GLSL import + OpExtInst unknown number".into(), mk(&[(6 << 16) | 11, 3, 0x4c534c47, 0x6474732e, 0x3035342e, 0, (6 << 16) | 12, 1, 2, 3, 999, 5])));
+    // constants (one and two literal words) and a switch typed by integer / float types of every edge width
+    for width in [0u32, 1, 7, 8, 9, 15, 16, 17, 24, 31, 32, 33, 48, 63, 64, 65, 128, 0x7fff_ffff, 0x8000_0000, 0xffff_ffe0, 0xffff_ffe1, 0xffff_fff0, u32::MAX] {
+        for float in [false, true] {
+            let ty = if float { vec![(3 << 16) | 22, 8, width] } else { vec![(4 << 16) | 21, 8, width, 0] };
+            for nlit in [1u32, 2] {
+                let mut ws = ty.clone();
+                ws.push(((3 + nlit) << 16) | 43);
+                ws.extend([8, 10]);
+                ws.extend((0..nlit).map(|i| 0x30 + i));
+                out.push((format!("OpConstant of {} width {:#x} with {} word(s)", if float { "float" } else { "int" }, width, nlit), mk(&ws)));
+            }
+        }
+    }
+    // OpTypeFloat with every FP-encoding value the LIVE enumeration declares (a grammar update adds them), plus
+    // neighbours, in widths 8..64, followed by small constants of that type
+    let fpe: Vec<u32> = crate::generated::decls::ENUMS.iter().find(|e| e.name == "FPEncoding").map(|e| e.variants.iter().map(|(_, v)| *v).collect()).unwrap_or_default();
+    let mut enc: Vec<u32> = fpe.iter().flat_map(|v| [*v, v.wrapping_add(1), v.wrapping_sub(1)]).chain([0u32, 1, 4214, 4215, 4216]).collect();
+    enc.sort();
+    enc.dedup();
+    for e in enc {
+        for width in [8u32, 16, 32, 64] {
+            for lit in [0u32, 0x04, 0x30, 0x38, 0x7f, 0xff, 0x3c00, 0xffff_ffff] {
+                let mut ws = vec![(4 << 16) | 22, 8, width, e];
+                if width == 64 {
+                    ws.extend([(5 << 16) | 43, 8, 10, lit, lit]);
+                } else {
+                    ws.extend([(4 << 16) | 43, 8, 10, lit]);
+                }
+                out.push((format!("OpTypeFloat {} encoding {} + constant {:#x}", width, e, lit), mk(&ws)));
+            }
+        }
+    }
     // a numeric type id declared twice with different widths / kinds, a constant in between (sized by the
     // first declaration while a reader that scans all declarations first sees the last), literal patterns
     // with and without a non-zero high word
